@@ -351,7 +351,7 @@ theorem cUnitOp_reach (t : Tid) (pol : Policy) (s s' : HState R) (op : COp)
         · simp only [Res.bind_ok, Res.pure_ok] at h
           obtain ⟨env, hr, rfl⟩ := h
           have hr := releaseHandler_reach t hk_sh _ _ _ hr
-          have := ha.trans hr
+          have := (reach_save (t := t) .uninitialized ha).trans hr
           reach_tac
         · simp only [Res.bind_ok, Res.pure_ok] at h
           obtain ⟨⟨s1, r⟩, hc, rfl⟩ := h
